@@ -33,7 +33,8 @@ CONSTANTS MaxCols,      \* bind metadata has 1..MaxCols columns
           MOrders,      \* C38: what the application defined and used BEFORE the model of the case (opaque here):
                         \*      "base_first": models keyed by the base column classes (Integer, Text),
                         \*      "subclass_first": models keyed by their subclasses (BigInt, SmallInt, TinyInt, Ascii)
-          MEmpty,       \* C38: TRUE: text / blob key columns also take the empty value
+          MFull,        \* C38: TRUE: int / text / blob key columns also take a third value (every type always has an
+                        \*      ordinary and a falsy-but-present one)
           MLayouts,     \* C38: where the model DECLARES its clustering column relative to the partition key columns:
                         \*      "keys_first" (the usual layout), "clustering_first", "clustering_between" (after the
                         \*      first partition key column; needs two of them).  The table is PRIMARY KEY ((k1..kn), ck)
@@ -190,16 +191,22 @@ Init ==
 
 \* ---- C38: a model with partition key columns of types tys (declaration order = key order), an operation
 \* of the mapper that fixes the whole partition key to the values number vs[i] of each type
+\* Value k of a key column of type ty.  k = 1: an ordinary value.  k = 2: the value that is PRESENT but falsy in
+\* Python - 0, False, the empty string, the empty blob (a uuid has none: a second uuid).  A statement that fixes a
+\* key component to such a value fixes it; "whole partition key fixed" means no component is missing (None), not
+\* that every component is truthy.  k = 3 (MFull, some types): a negative number, a longer string.
 MVal(ty, k) ==
-    CASE ty = "int"      -> IF k = 1 THEN V(258, <<>>) ELSE V(0 - 2, <<>>)
-      [] ty = "bigint"   -> IF k = 1 THEN V(65537, <<>>) ELSE V(0 - 1, <<>>)
-      [] ty = "smallint" -> IF k = 1 THEN V(513, <<>>) ELSE V(0 - 3, <<>>)
-      [] ty = "tinyint"  -> IF k = 1 THEN V(5, <<>>) ELSE V(0 - 4, <<>>)
+    CASE ty = "int"      -> IF k = 1 THEN V(258, <<>>) ELSE IF k = 2 THEN V(0, <<>>) ELSE V(0 - 2, <<>>)
+      [] ty = "bigint"   -> IF k = 1 THEN V(65537, <<>>) ELSE V(0, <<>>)
+      [] ty = "smallint" -> IF k = 1 THEN V(513, <<>>) ELSE V(0, <<>>)
+      [] ty = "tinyint"  -> IF k = 1 THEN V(5, <<>>) ELSE V(0, <<>>)
       [] ty = "boolean"  -> IF k = 1 THEN V(1, <<>>) ELSE V(0, <<>>)
-      [] ty = "text"     -> IF k = 1 THEN V(0, <<97>>) ELSE IF k = 2 THEN V(0, <<98, 99, 100>>) ELSE V(0, <<>>)
-      [] ty = "ascii"    -> IF k = 1 THEN V(0, <<120, 121>>) ELSE V(0, <<113>>)
-      [] ty = "blob"     -> IF k = 1 THEN V(0, <<0, 255>>) ELSE IF k = 2 THEN V(0, <<1, 0, 0>>) ELSE V(0, <<>>)
+      [] ty = "text"     -> IF k = 1 THEN V(0, <<97>>) ELSE IF k = 2 THEN V(0, <<>>) ELSE V(0, <<98, 99, 100>>)
+      [] ty = "ascii"    -> IF k = 1 THEN V(0, <<120, 121>>) ELSE V(0, <<>>)
+      [] ty = "blob"     -> IF k = 1 THEN V(0, <<0, 255>>) ELSE IF k = 2 THEN V(0, <<>>) ELSE V(0, <<1, 0, 0>>)
       [] ty = "uuid"     -> IF k = 1 THEN V(0, [i \in 1..16 |-> i]) ELSE V(0, [i \in 1..16 |-> 255 - i])
+
+Falsy(ty, v) == ty # "uuid" /\ v.i = 0 /\ v.s = <<>>
 
 \* The clustering column's type differs from the type of the partition key column whose place it takes in the
 \* declaration order (a key component encoded with a neighbour's type must show)
@@ -207,7 +214,7 @@ CkType(tys, layout) ==
     LET displaced == IF layout = "clustering_between" THEN tys[2] ELSE tys[1]
     IN IF displaced = "bigint" THEN "int" ELSE "bigint"
 
-NMVals(ty) == IF MEmpty /\ ty \in {"text", "blob"} THEN 3 ELSE 2
+NMVals(ty) == IF MFull /\ ty \in {"int", "text", "blob"} THEN 3 ELSE 2
 
 MapperInit ==
     \E k \in 1..MMaxPk : \E tys \in [1..k -> MTypes] : \E vs \in [1..k -> 1..3] : \E op \in MOps : \E ord \in MOrders :
@@ -278,6 +285,9 @@ Witness_NullKeyComponent == ~(out.accept /\ out.rk.t = "any")
 Witness_EmptySingleKey == ~(out.accept /\ out.rk.t = "bytes" /\ Len(case.pk) = 1 /\ out.rk.b = <<>>)
 Witness_EmptyInComposite == ~(out.accept /\ out.rk.t = "bytes" /\ Len(case.pk) >= 2
                               /\ \E j \in 1..Len(case.pk) : out.slots[case.pk[j]].b = <<>>)
+Witness_FalsySingleKey == ~(Len(case.tys) = 1 /\ Falsy(case.tys[1], case.vals[1]))
+Witness_FalsyInComposite == ~(Len(case.tys) >= 2 /\ \E i \in 1..Len(case.tys) : Falsy(case.tys[i], case.vals[i])
+                                                  /\ \E j \in 1..Len(case.tys) : ~Falsy(case.tys[j], case.vals[j]))
 Witness_ClusteringDeclaredFirst == ~(case.layout = "clustering_first" /\ case.ckty # case.tys[1])
 Witness_ClusteringDeclaredBetween == ~(case.layout = "clustering_between" /\ case.ckty # case.tys[2])
 Witness_MapperComposite == ~(Len(case.tys) >= 2)
